@@ -15,11 +15,28 @@ theorem HdrFine_new (b : Buf) : HdrFine b {} := ⟨rfl, PField.inside_zero _, PF
 theorem HlOut.hdr {b : Buf} {h : Hdr} {hb : Option PHdrVals} (h' : HlOut b (h, hb)) : HdrFine b h :=
   ⟨h'.pnc, h'.nameF, h'.valF⟩
 
+/-- name and value of a header lie before the offset `o` -/
+def HdrBefore (o : Nat) (h : Hdr) : Prop := h.name.inside o ∧ h.val.inside o
+
+theorem HdrBefore.mono {o o' : Nat} {h : Hdr} (hh : HdrBefore o h) (h1 : o ≤ o') : HdrBefore o' h :=
+  ⟨PField.inside_mono hh.1 h1, PField.inside_mono hh.2 h1⟩
+
+theorem HdrBefore_new (o : Nat) : HdrBefore o {} := ⟨PField.inside_zero _, PField.inside_zero _⟩
+
+/-- every stored header and every first-of-type shortcut lies before `o` -/
+structure HlsIn (o : Nat) (hl : HdrLst) : Prop where
+  stored : ∀ k, k < hl.n → k < hl.hdrs.size → HdrBefore o hl.hdrs[k]!
+  hI : ∀ j, j < hl.h.size → HdrBefore o hl.h[j]!
+
+theorem HlsIn.mono {o o' : Nat} {hl : HdrLst} (h : HlsIn o hl) (h1 : o ≤ o') : HlsIn o' hl :=
+  ⟨fun k a1 a2 => (h.stored k a1 a2).mono h1, fun j hj => (h.hI j hj).mono h1⟩
+
 structure HlsSafe (b : Buf) (o : Nat) (hl : HdrLst) (hb : Option PHdrVals) : Prop where
   cur : HlSafe b o (hl.cur, hb)
   clean : HlsClean hl
   stored : ∀ k, k < hl.n → k < hl.hdrs.size → HdrFine b hl.hdrs[k]!
   hF : ∀ j, j < hl.h.size → HdrFine b hl.h[j]!
+  inn : HlsIn o hl
 
 /-- whatever the verdict: every slot of the caller's array, the scratch slot and every shortcut is dereferenceable -/
 structure HlsOut (b : Buf) (hl : HdrLst) : Prop where
@@ -51,8 +68,10 @@ theorem HlsOut.setCur {b : Buf} {hl : HdrLst} (H : HlsOut b hl) (g : Hdr) (hg : 
   · rw [(hlSetCur_scalars hl g).2]; exact H.hF
 
 theorem HlsSafe.setCur {b : Buf} {o n : Nat} {hl : HdrLst} {hb v : Option PHdrVals} (H : HlsSafe b o hl hb) (g : Hdr)
-    (hg : HlSafe b n (g, v)) : HlsSafe b n (hl.setCur g) v := by
-  refine ⟨by rw [hlSetCur_cur]; exact hg, ⟨fun k h1 h2 => ?_, fun h1 => ?_⟩, fun k h1 h2 => ?_, ?_⟩
+    (hg : HlSafe b n (g, v)) (hon : o ≤ n) : HlsSafe b n (hl.setCur g) v := by
+  have hm := H.inn.mono hon
+  refine ⟨by rw [hlSetCur_cur]; exact hg, ⟨fun k h1 h2 => ?_, fun h1 => ?_⟩, fun k h1 h2 => ?_, ?_,
+    ⟨fun k h1 h2 => ?_, by rw [(hlSetCur_scalars hl g).2]; exact hm.hI⟩⟩
   · rw [hlSetCur_n] at h1; rw [hlSetCur_size] at h2
     rw [hlSetCur_ne hl g k (by omega)]; exact H.clean.1 k h1 h2
   · rw [hlSetCur_n, hlSetCur_size] at h1
@@ -60,9 +79,11 @@ theorem HlsSafe.setCur {b : Buf} {o n : Nat} {hl : HdrLst} {hb v : Option PHdrVa
   · rw [hlSetCur_n] at h1; rw [hlSetCur_size] at h2
     rw [hlSetCur_ne hl g k (by omega)]; exact H.stored k h1 h2
   · rw [(hlSetCur_scalars hl g).2]; exact H.hF
+  · rw [hlSetCur_n] at h1; rw [hlSetCur_size] at h2
+    rw [hlSetCur_ne hl g k (by omega)]; exact hm.stored k h1 h2
 
-theorem setHdr_hF (b : Buf) (hl : HdrLst) (g : Hdr) (hg : HdrFine b g) (H : ∀ j, j < hl.h.size → HdrFine b hl.h[j]!) :
-    ∀ j, j < (hl.setHdr g).h.size → HdrFine b (hl.setHdr g).h[j]! := by
+theorem setHdr_allP (P : Hdr → Prop) (hl : HdrLst) (g : Hdr) (hg : P g) (H : ∀ j, j < hl.h.size → P hl.h[j]!) :
+    ∀ j, j < (hl.setHdr g).h.size → P (hl.setHdr g).h[j]! := by
   unfold HdrLst.setHdr
   split
   · split
@@ -82,15 +103,15 @@ theorem setHdr_hF (b : Buf) (hl : HdrLst) (g : Hdr) (hg : HdrFine b g) (H : ∀ 
     · exact H
   · exact H
 
-theorem accept_hF (b : Buf) (hl : HdrLst) (g : Hdr) (hg : HdrFine b g) (H : ∀ j, j < hl.h.size → HdrFine b hl.h[j]!) :
-    ∀ j, j < (hl.accept g).h.size → HdrFine b (hl.accept g).h[j]! := by
-  have := setHdr_hF b { hl with pflags := (hl.pflags ||| (1 <<< g.type)) % 65536 } g hg H
+theorem accept_allP (P : Hdr → Prop) (hl : HdrLst) (g : Hdr) (hg : P g) (H : ∀ j, j < hl.h.size → P hl.h[j]!) :
+    ∀ j, j < (hl.accept g).h.size → P (hl.accept g).h[j]! := by
+  have := setHdr_allP P { hl with pflags := (hl.pflags ||| (1 <<< g.type)) % 65536 } g hg H
   unfold HdrLst.accept
   dsimp only
   split <;> exact this
 
 theorem HlsSafe.next {b : Buf} {o n : Nat} {hl : HdrLst} {hb v : Option PHdrVals} (H : HlsSafe b o hl hb) (g : Hdr)
-    (hg : HlSafe b n (g, v)) (hfin : g.state = .fin) : HlsSafe b n ((hl.setCur g).accept g) v := by
+    (hg : HlSafe b n (g, v)) (hfin : g.state = .fin) (hon : o ≤ n) : HlsSafe b n ((hl.setCur g).accept g) v := by
   have hn : ((hl.setCur g).accept g).n = hl.n + 1 := by rw [accept_n, hlSetCur_n]
   have hs : ((hl.setCur g).accept g).hdrs.size = hl.hdrs.size := by rw [accept_hdrs, hlSetCur_size]
   have hk : ∀ k, hl.n < k → k < hl.hdrs.size → ((hl.setCur g).accept g).hdrs[k]! = {} := by
@@ -106,7 +127,7 @@ theorem HlsSafe.next {b : Buf} {o n : Nat} {hl : HdrLst} {hb v : Option PHdrVals
     split
     · rename_i hin; exact hk _ (by omega) hin
     · exact hh
-  refine ⟨?_, ⟨fun k h1 h2 => ?_, fun _ => hh⟩, fun k h1 h2 => ?_, ?_⟩
+  refine ⟨?_, ⟨fun k h1 h2 => ?_, fun _ => hh⟩, fun k h1 h2 => ?_, ?_, ?_⟩
   · rw [hcur]
     refine HlSafe_new b n v hg.hi (fun hv hvv => ?_)
     have := hg.hv hv hvv
@@ -117,87 +138,17 @@ theorem HlsSafe.next {b : Buf} {o n : Nat} {hl : HdrLst} {hb v : Option PHdrVals
     by_cases hkn : hl.n = k
     · subst hkn; rw [hlSetCur_get_n hl g h2]; exact hg.out.hdr
     · rw [hlSetCur_ne hl g k hkn]; exact H.stored k (by omega) h2
-  · exact accept_hF b _ g hg.out.hdr (by rw [(hlSetCur_scalars hl g).2]; exact H.hF)
+  · exact accept_allP (HdrFine b) _ g hg.out.hdr (by rw [(hlSetCur_scalars hl g).2]; exact H.hF)
+  · have hm := H.inn.mono hon
+    refine ⟨fun k h1 h2 => ?_, ?_⟩
+    · rw [hn] at h1; rw [hs] at h2
+      rw [accept_hdrs]
+      by_cases hkn : hl.n = k
+      · subst hkn; rw [hlSetCur_get_n hl g h2]; exact ⟨hg.nameIn, hg.valIn⟩
+      · rw [hlSetCur_ne hl g k hkn]; exact hm.stored k (by omega) h2
+    · exact accept_allP (HdrBefore n) _ g ⟨hg.nameIn, hg.valIn⟩ (by rw [(hlSetCur_scalars hl g).2]; exact hm.hI)
 
 /-! ### the "empty line" verdict comes from the first byte of a header line only -/
-
-theorem hlAfterColon_ne_empty (b : Buf) (i : Nat) (h : Hdr) (hb : Option PHdrVals) {n : Nat} {st' : HLσ} :
-    hlAfterColon b i h hb ≠ .done n .empty st' := by
-  unfold hlAfterColon
-  split
-  · intro hh; cases hh
-  · rename_i nm _
-    simp only
-    have := parseBody_ne_empty b i { h with type := getHdrType nm } hb
-    rcases hp : parseBody b i { h with type := getHdrType nm } hb with ⟨n1, e1, h2, hb2⟩
-    rw [hp] at this
-    simp only
-    split
-    · intro hh; simp only [Step.done.injEq] at hh; exact this hh.2.1
-    · intro hh; cases hh
-
-theorem hlName_ne_empty (b : Buf) (i : Nat) (h : Hdr) (hb : Option PHdrVals) {n : Nat} {st' : HLσ} :
-    hlName b i h hb ≠ .done n .empty st' := by
-  unfold hlName
-  simp only
-  split
-  · intro hh; cases hh
-  · split
-    · split <;> (intro hh; cases hh)
-    · split
-      · split
-        · intro hh; cases hh
-        · exact hlAfterColon_ne_empty b _ _ hb
-      · intro hh; cases hh
-
-theorem hlValEnd_ne_empty (b : Buf) (i : Nat) (h : Hdr) (hb : Option PHdrVals) {n : Nat} {st' : HLσ} :
-    hlValEnd b i h hb ≠ .done n .empty st' := by
-  unfold hlValEnd
-  rcases hsk : skipLWS b i 0 with ⟨n1, crl, e⟩
-  have := skipLWS_verdicts b i 0 hsk
-  rcases this with rfl | rfl | rfl | rfl <;> simp only <;> (intro hh; cases hh)
-
-theorem hlCont_ne_empty (b : Buf) (i : Nat) (h : Hdr) (hb : Option PHdrVals) {n : Nat} {st' : HLσ} :
-    hlCont b i h hb ≠ .done n .empty st' := by
-  unfold hlCont parseFromVal
-  cases hb with
-  | none => intro hh; cases hh
-  | some hv =>
-    simp only
-    cases h.state <;> simp only
-    case hFrom =>
-      have := parseNameAddrPVal_ne_empty HdrFrom b i hv.from_
-      rcases hq : parseNameAddrPVal HdrFrom b i hv.from_ with ⟨n1, e1, f1⟩
-      rw [hq] at this; intro hh; simp only [Step.done.injEq] at hh; exact this hh.2.1
-    case hTo =>
-      have := parseNameAddrPVal_ne_empty HdrTo b i hv.to
-      rcases hq : parseNameAddrPVal HdrTo b i hv.to with ⟨n1, e1, f1⟩
-      rw [hq] at this; intro hh; simp only [Step.done.injEq] at hh; exact this hh.2.1
-    case hCallID =>
-      have := parseCallIDVal_ne_empty b i hv.callid
-      rcases hq : parseCallIDVal b i hv.callid with ⟨n1, e1, f1⟩
-      rw [hq] at this; intro hh; simp only [Step.done.injEq] at hh; exact this hh.2.1
-    case hCSeq =>
-      have := parseCSeqVal_ne_empty b i hv.cseq
-      rcases hq : parseCSeqVal b i hv.cseq with ⟨n1, e1, f1⟩
-      rw [hq] at this; intro hh; simp only [Step.done.injEq] at hh; exact this hh.2.1
-    case hCLen =>
-      have := parseCLenVal_ne_empty b i hv.clen
-      rcases hq : parseCLenVal b i hv.clen with ⟨n1, e1, f1⟩
-      rw [hq] at this; intro hh; simp only [Step.done.injEq] at hh; exact this hh.2.1
-    case hContact =>
-      have := parseAllContactValues_ne_empty b i hv.contacts
-      rcases hq : parseAllContactValues b i hv.contacts with ⟨n1, e1, f1⟩
-      rw [hq] at this; intro hh; simp only [Step.done.injEq] at hh; exact this hh.2.1
-    case hExpires =>
-      have := parseUIntVal_ne_empty b i hv.expires
-      rcases hq : parseUIntVal b i hv.expires with ⟨n1, e1, f1⟩
-      rw [hq] at this; intro hh; simp only [Step.done.injEq] at hh; exact this hh.2.1
-    case hPAI =>
-      have := parseAllPAIValues_ne_empty b i hv.pais
-      rcases hq : parseAllPAIValues b i hv.pais with ⟨n1, e1, f1⟩
-      rw [hq] at this; intro hh; simp only [Step.done.injEq] at hh; exact this hh.2.1
-    all_goals (intro hh; cases hh)
 
 theorem hlStep_empty_ge (b : Buf) (i : Nat) (c : UInt8) (st : HLσ) {n : Nat} {st' : HLσ}
     (hs : hlStep b i c st = .done n .empty st') : i ≤ n := by
@@ -260,7 +211,7 @@ theorem parseHeaders_safe (b : Buf) (offs : Nat) (hl : HdrLst) (hb : Option PHdr
     (H : HlsSafe b offs hl hb) :
     HlsOut b (parseHeaders b offs hl hb).2.2.1 ∧
     (∀ hv, (parseHeaders b offs hl hb).2.2.2 = some hv → HvFine b hv) ∧
-    ((parseHeaders b offs hl hb).2.1 = .moreBytes →
+    ((parseHeaders b offs hl hb).2.1 = .moreBytes ∨ (parseHeaders b offs hl hb).2.1 = .ok →
       HlsSafe b (parseHeaders b offs hl hb).1 (parseHeaders b offs hl hb).2.2.1 (parseHeaders b offs hl hb).2.2.2) ∧
     ((parseHeaders b offs hl hb).2.1 = .ok ∨ (parseHeaders b offs hl hb).2.1 = .moreBytes →
       offs ≤ (parseHeaders b offs hl hb).1 ∧ (parseHeaders b offs hl hb).1 ≤ b.size) ∧
@@ -272,30 +223,29 @@ theorem parseHeaders_safe (b : Buf) (offs : Nat) (hl : HdrLst) (hb : Option PHdr
     · rw [if_pos hlt]
       have hI : hlOK b offs hl.cur hb := ⟨by omega, hlsOK_cur hok1, hok2⟩
       rcases hp1 : parseHdrLine b offs hl.cur hb with ⟨n1, e1, g1, v1⟩
-      obtain ⟨hO, hS, hF, hN⟩ := parseHdrLine_safe b offs hl.cur hb hfit H.cur hI hp1
+      obtain ⟨hO, hS, hF, hN, hE⟩ := parseHdrLine_safe b offs hl.cur hb hfit H.cur hI hp1
       have hvf : ∀ hv, v1 = some hv → HvFine b hv := hO.hv
       have herr : HlsOut b (hl.setCur g1) ∧ (∀ hv, v1 = some hv → HvFine b hv) := ⟨H.out.setCur g1 hO.hdr, hvf⟩
       cases e1 <;> simp only
       case ok =>
         have hpost := parseHdrLine_post b offs hl.cur hb hI hp1 (Or.inl rfl)
-        by_cases hg : offs < n1
-        · rw [if_pos hg]
-          have := ih (b.size - n1) (by omega) n1 _ v1 (hlsOK_next g1 hok1) hpost.2
-            (hlsPend_next g1 v1 hpe) hpost.1 (H.next g1 (hS (Or.inl rfl)) (hF rfl)) rfl
-          exact ⟨this.1, this.2.1, this.2.2.1, (fun hh => ⟨by have := (this.2.2.2.1 hh).1; omega, (this.2.2.2.1 hh).2⟩), this.2.2.2.2⟩
-        · rw [if_neg hg]
-          exact ⟨(H.next g1 (hS (Or.inl rfl)) (hF rfl)).out, hvf, (fun hh => by cases hh),
-            (fun hh => by rcases hh with hh | hh <;> cases hh), hN⟩
+        have hg : offs < n1 := parseHdrLine_ok_gt b offs hl.cur hb hI hpe.1 hp1
+        rw [if_pos hg]
+        have := ih (b.size - n1) (by omega) n1 _ v1 (hlsOK_next g1 hok1) hpost.2
+          (hlsPend_next g1 v1 hpe) hpost.1 (H.next g1 (hS (Or.inl rfl)) (hF rfl) (by omega)) rfl
+        exact ⟨this.1, this.2.1, this.2.2.1, (fun hh => ⟨by have := (this.2.2.2.1 hh).1; omega, (this.2.2.2.1 hh).2⟩), this.2.2.2.2⟩
       case empty =>
         have hge := parseHdrLine_empty_ge b offs hl.cur hb hp1
         have hle := (parseHdrLine_post b offs hl.cur hb hI hp1 (Or.inr rfl)).1
         split
-        · exact ⟨herr.1, herr.2, (fun hh => by cases hh), (fun _ => ⟨hge, hle⟩), hN⟩
-        · exact ⟨herr.1, herr.2, (fun hh => by cases hh), (fun hh => by rcases hh with hh | hh <;> cases hh), hN⟩
+        · exact ⟨herr.1, herr.2, (fun _ => H.setCur g1 (hE rfl) hge), (fun _ => ⟨hge, hle⟩), hN⟩
+        · exact ⟨herr.1, herr.2, (fun hh => by rcases hh with hh | hh <;> cases hh),
+            (fun hh => by rcases hh with hh | hh <;> cases hh), hN⟩
       case moreBytes =>
         obtain ⟨_, _, _, r1, r2⟩ := parseHdrLine_resume b #[] offs hl.cur hb hI hpe.1 hp1
-        exact ⟨herr.1, herr.2, (fun _ => H.setCur g1 (hS (Or.inr rfl))), (fun _ => ⟨r1, r2⟩), hN⟩
-      all_goals exact ⟨herr.1, herr.2, (fun hh => by cases hh), (fun hh => by rcases hh with hh | hh <;> cases hh), hN⟩
+        exact ⟨herr.1, herr.2, (fun _ => H.setCur g1 (hS (Or.inr rfl)) r1), (fun _ => ⟨r1, r2⟩), hN⟩
+      all_goals exact ⟨herr.1, herr.2, (fun hh => by rcases hh with hh | hh <;> cases hh),
+        (fun hh => by rcases hh with hh | hh <;> cases hh), hN⟩
     · rw [if_neg hlt]
       exact ⟨H.out, (fun hv hh => (H.cur.hv hv hh).fine), (fun _ => H), (fun _ => ⟨Nat.le_refl _, ho⟩), ho⟩
 
